@@ -174,6 +174,19 @@ def entry_guard(ctx: Ctx, roles, fn: Func) -> tuple[str | None, str]:
                 if len(bad) == 1 and isinstance(bad[0].ast, ast.Raise):
                     return mem, ""
                 return None, "the mismatch branch does not raise"
+            # an in-progress marker tested together with the state (`self.X is not None -> raise`): the
+            # operand order of the guard is free, step over it along its passing branch
+            mk_bad = None
+            if isinstance(t, ast.Compare) and len(t.ops) == 1 and isinstance(t.left, ast.Attribute) and norm(t.left.value) == "self" and isinstance(t.comparators[0], ast.Constant) and t.comparators[0].value is None:
+                mk_bad = "true" if isinstance(t.ops[0], (ast.IsNot, ast.NotEq)) else "false"
+            elif isinstance(t, ast.Attribute) and norm(t.value) == "self":
+                mk_bad = "true"
+            if mk_bad is not None:
+                bad = [s for l, s in n.succ if l == mk_bad]
+                good = [s for l, s in n.succ if l not in (mk_bad, "exc")]
+                if len(bad) == 1 and isinstance(bad[0].ast, ast.Raise) and len(good) == 1:
+                    n = good[0]
+                    continue
             return None, f"first test is not a state guard: {norm(t)}"
         if n.kind == "stmt" and not (isinstance(n.ast, ast.Expr) and isinstance(n.ast.value, ast.Constant)):
             return None, f"effect before the guard: {n.text(50)}"
@@ -225,6 +238,7 @@ def r3(ctx: Ctx, roles) -> None:
         guards[e.qualname] = (P, mems)
         if P is not None:
             one_shot(ctx, roles, e, P)
+            reentry_closed(ctx, roles, e, P)
     ctx.analysed["phase_guards"] = {k: {"guard": v[0], "sets": v[1]} for k, v in guards.items()}
     # the two public phases chain: start guards INITIALIZED, finish guards exactly what start leaves
     st = guards.get("APIConnection.start_connection")
@@ -275,6 +289,82 @@ def one_shot(ctx: Ctx, roles, e: Func, P: str | None) -> None:
             ctx.ob("C05.R3", e, f"exceptional exit from {src.text(50)} passes the closer", False, "an exception can leave the phase with the guard state intact and nothing released", path=fmt_path(path))
             return
     ctx.ob("C05.R3", e, "every exceptional exit passes the closer", True, "")
+
+
+def reentry_closed(ctx: Ctx, roles, e: Func, P: str) -> None:
+    """The one-shot guard must already refuse a second caller when the phase first loses control:
+    between the guard and the first suspension point either the state leaves P or an in-progress
+    marker that the guard also tests (`self.X is not None -> raise`) is set.  Otherwise two
+    overlapping calls both pass the guard: two connect attempts on one object."""
+    from ..effects import effects
+
+    eff = effects(ctx)
+    res = resolver(ctx)
+    g = cfg_of(ctx, e)
+    # the guard's raise node and the marker attributes tested together with the state
+    raise_nodes = set()
+    for node in g.nodes:
+        if node.kind == "cond" and isinstance(node.ast, ast.Compare) and isinstance(node.ast.left, ast.Attribute) and node.ast.left.attr == roles.state_attr:
+            for l, s_ in node.succ:
+                if isinstance(s_.ast, ast.Raise):
+                    raise_nodes.add(s_)
+    markers = set()
+    for node in g.nodes:
+        if node.kind != "cond":
+            continue
+        t = node.ast
+        attr = None
+        bad = None
+        if isinstance(t, ast.Compare) and len(t.ops) == 1 and isinstance(t.left, ast.Attribute) and norm(t.left.value) == "self" and isinstance(t.comparators[0], ast.Constant) and t.comparators[0].value is None:
+            attr = t.left.attr
+            bad = "true" if isinstance(t.ops[0], (ast.IsNot, ast.NotEq)) else "false"
+        elif isinstance(t, ast.Attribute) and norm(t.value) == "self":
+            attr, bad = t.attr, "true"
+        if attr and any(l == bad and s_ in raise_nodes for l, s_ in node.succ):
+            markers.add(attr)
+
+    def sets_marker(fn: Func, n: Node, depth: int = 0) -> bool:
+        if n.kind == "stmt" and isinstance(n.ast, (ast.Assign, ast.AnnAssign)):
+            tg = n.ast.targets if isinstance(n.ast, ast.Assign) else [n.ast.target]
+            v = n.ast.value
+            if any(isinstance(t, ast.Attribute) and norm(t.value) == "self" and t.attr in markers for t in tg) and v is not None and not (isinstance(v, ast.Constant) and v.value is None):
+                return True
+        return False
+
+    def gk(n: Node, f: frozenset, label: str) -> frozenset:
+        if label == "exc":
+            return f
+        if sets_marker(e, n):
+            return f | {"closed-to-reentry"}
+        for c in node_calls(n):
+            cs = res.callees(e, c).funcs
+            if roles.setter in cs or roles.closer in cs:
+                return f | {"closed-to-reentry"}
+        return f
+
+    from ..cfg import must_forward
+
+    facts = must_forward(g, gk)
+    # first suspension points: reachable from the entry without passing another suspension point
+    firsts = []
+    seen = {g.entry}
+    todo = [g.entry]
+    while todo:
+        n = todo.pop()
+        if n is not g.entry and eff.node_suspends(e, n):
+            firsts.append(n)
+            continue
+        for l, s_ in n.succ:
+            if l == "exc" or s_ in seen:
+                continue
+            seen.add(s_)
+            todo.append(s_)
+    bad = [n for n in firsts if "closed-to-reentry" not in facts.get(n, frozenset())]
+    ctx.ob(
+        "C05.R3", e, "the one-shot guard refuses a second caller before the phase first suspends", bool(firsts) and not bad,
+        f"guard state {P}, in-progress markers tested by the guard: {sorted(markers) or 'none'}; at {[n.text(50) for n in bad[:2]]} control is lost while a second call would still pass the guard: "
+        "two overlapping calls run two connect attempts on one connection object",
+    )
 
 
 def _risky(ctx: Ctx, fn: Func, n: Node) -> bool:
